@@ -5,8 +5,8 @@ import ast
 from fractions import Fraction
 from typing import Dict, List, Optional, Set, Tuple
 
-from ..cfg import CFG, symbolic_returns
-from ..exprnorm import Poly, Rat, norm_test, normalize
+from ..cfg import CFG, symbolic_effects, symbolic_returns
+from ..exprnorm import Poly, Rat, norm_test, normalize, conj_test
 from ..report import Run
 from ..src import (AnalysisError, ClassInfo, FuncInfo, Program, attr_chain, call_name, dotted,
                    stmt_key, walk_no_nested)
@@ -712,61 +712,55 @@ def physical_limits(prog: Program, run: Run, R: str) -> None:
     if f is None:
         raise AnalysisError("LinearSegment.__compute_physical_limits not found")
     C = "LinearSegment.__compute_physical_limits"
-    ifs = [x for x in f.node.body if isinstance(x, ast.If) and "factor" in ast.unparse(x.test)]
-    if len(ifs) != 1:
-        writes = [x for x in walk_no_nested(f.node) if isinstance(x, ast.Assign) and ast.unparse(
-            x.targets[0]) in ("self._physical_lower_limit", "self._physical_upper_limit")]
-        if not writes:
-            raise AnalysisError("__compute_physical_limits: physical limits are not assigned")
-        others = [x for x in f.node.body if isinstance(x, ast.If)]
-        cond = ast.unparse(others[0].test) if others else "nothing"
-        run.violation(R, C, "swap-condition",
-                      f"whether the limits are swapped depends on `{cond}`, not on the sign of "
-                      "the factor: for a decreasing function with a one-sided (or INFINITE) "
-                      "interval the physical limit ends up on the wrong side",
-                      _loc(f, others[0] if others else writes[0]), cond)
-        return
-    t = ifs[0]
-    n = norm_test(t.test)
-    # which branch is the non-negative one?
-    s = ast.unparse(t.test).replace(" ", "")
-    if s in ("self.factor>=0", "self.factor>0", "0<=self.factor", "0<self.factor"):
-        nonneg, neg = t.body, t.orelse
-    elif s in ("self.factor<0", "0>self.factor", "self.factor<=0"):
-        nonneg, neg = t.orelse, t.body
-    else:
-        run.violation(R, C, "swap-condition",
-                      f"the limits are swapped depending on `{ast.unparse(t.test)}`, not on the "
-                      "sign of the factor: for a decreasing function with a one-sided interval "
-                      "the physical limit ends up on the wrong side", _loc(f, t),
-                      ast.unparse(t.test))
-        return
+    lo_k, hi_k = "self._physical_lower_limit", "self._physical_upper_limit"
+    paths = symbolic_effects(f.node)
+    if not paths or not all(lo_k in env and hi_k in env for _c, env in paths):
+        raise AnalysisError("__compute_physical_limits: physical limits are not assigned on "
+                            "every path")
 
-    def assigns(body: List[ast.stmt]) -> Dict[str, str]:
-        out = {}
-        for st in body:
-            if isinstance(st, ast.Assign) and isinstance(st.value, ast.Call):
-                tg = ast.unparse(st.targets[0])
-                arg = ast.unparse(st.value.args[0]) if st.value.args else ""
-                out[tg] = arg
-        return out
-    a_pos, a_neg = assigns(nonneg), assigns(neg)
-    want_pos = {"self._physical_lower_limit": "self.internal_lower_limit",
-                "self._physical_upper_limit": "self.internal_upper_limit"}
-    want_neg = {"self._physical_lower_limit": "self.internal_upper_limit",
-                "self._physical_upper_limit": "self.internal_lower_limit"}
-    if a_pos == want_pos:
-        run.ok(R, C, "factor >= 0: physical lower/upper from internal lower/upper", _loc(f, t))
-    else:
-        run.violation(R, C, "increasing", f"for a non-negative factor the limits are {a_pos}",
-                      _loc(f, t))
-    if a_neg == want_neg:
-        run.ok(R, C, "factor < 0: physical lower/upper from internal upper/lower (swapped)",
-               _loc(f, t))
-    else:
-        run.violation(R, C, "decreasing",
-                      f"for a negative factor the limits are {a_neg}; they must be swapped",
-                      _loc(f, t))
+    def source(e: ast.AST) -> str:
+        # the internal limit a physical limit is converted from
+        if isinstance(e, ast.Call) and e.args:
+            return ast.unparse(e.args[0])
+        return ast.unparse(e)
+    groups: Dict[str, List] = {}
+    for conds, env in paths:
+        groups.setdefault(conj_test(conds), []).append((conds, env))
+    NONNEG = ("-1*self.factor <= 0", "-1*self.factor < 0")
+    NEG = ("-1*self.factor > 0", "-1*self.factor >= 0")
+    seen_sides = set()
+    for key, items in sorted(groups.items()):
+        conds, env = items[0]
+        got = {lo_k: source(env[lo_k]), hi_k: source(env[hi_k])}
+        if key in NONNEG:
+            seen_sides.add("nonneg")
+            want = {lo_k: "self.internal_lower_limit", hi_k: "self.internal_upper_limit"}
+            if got == want:
+                run.ok(R, C, "factor >= 0: physical lower/upper from internal lower/upper", f.loc)
+            else:
+                run.violation(R, C, "increasing",
+                              f"for a non-negative factor the limits are {got}", f.loc)
+        elif key in NEG:
+            seen_sides.add("neg")
+            want = {lo_k: "self.internal_upper_limit", hi_k: "self.internal_lower_limit"}
+            if got == want:
+                run.ok(R, C, "factor < 0: physical lower/upper from internal upper/lower "
+                       "(swapped)", f.loc)
+            else:
+                run.violation(R, C, "decreasing",
+                              f"for a negative factor the limits are {got}; they must be swapped",
+                              f.loc)
+        else:
+            run.violation(R, C, "swap-condition",
+                          f"whether the limits are swapped depends on `{key or 'nothing'}`, not "
+                          "on the sign of the factor: for a decreasing function with a one-sided "
+                          "(or INFINITE) interval the physical limit ends up on the wrong side",
+                          f.loc, key)
+            return
+    if seen_sides != {"nonneg", "neg"}:
+        run.violation(R, C, "swap-condition", "the limits are not computed separately for "
+                      "non-negative and negative factors", f.loc)
+        return
     # interval type carried over, value converted with the forward function
     inner = [x for x in f.node.body if isinstance(x, ast.FunctionDef)]
     txt = ast.unparse(inner[0]) if inner else ""
